@@ -147,8 +147,23 @@ package rlp
 //@   option trusted extern=(reflect.Value).Set
 //@   modifies nothing
 
+// ghost lastsetuint: the number the last reflect.Value.SetUint stored (a history variable).
+//@ ghost lastsetuint {uint64}
 //@ func ext_reflectSetUint
 //@   option trusted extern=(reflect.Value).SetUint
+//@   ensures ghost(lastsetuint) == arg1
+//@   modifies ghost(lastsetuint)
+
+//@ spec abstract fn reflTypeOf(v reflect.Value) Iface
+//@ spec abstract fn typeBits(t Iface) int
+//@ func ext_reflectValueType
+//@   option trusted extern=(reflect.Value).Type
+//@   ensures result == reflTypeOf(arg0)
+//@   modifies nothing
+
+//@ func ext_reflectTypeBits
+//@   option trusted extern=(reflect.Type).Bits
+//@   ensures result == typeBits(arg0)
 //@   modifies nothing
 
 //@ func ext_reflectIndex
@@ -187,6 +202,8 @@ package rlp
 //@   option trusted
 //@   requires s != nil
 //@   ensures s.kind == 0 - 1
+//@   # size bytes are read big-endian: the value fits 8*size bits
+//@   ensures [fits] result1 == nil && size < 8 ==> result0 >> (8 * uint64(size)) == 0
 //@   modifies *s
 
 //@ func Stream.readFull
@@ -199,14 +216,24 @@ package rlp
 //@   property C08
 //@   requires s != nil
 //@   ensures [armed] result1 == nil ==> s.kind == 0 - 1
+//@   # a fixed-width integer: the decoded value fits the width asked for
+//@   ensures [fits]  result1 == nil && 8 <= maxbits && maxbits < 64 ==> result0 >> uint64(maxbits) == 0
 //@   modifies *s
+
+// decodeUint hands the stream reader the width of the TARGET type: what it stores fits that width, so nothing is
+// truncated silently and an over-wide (non-canonical for the type) integer is rejected.
+//@ func decodeUint
+//@   property C08
+//@   requires s != nil
+//@   ensures [width] result == nil && 8 <= typeBits(reflTypeOf(val)) && typeBits(reflTypeOf(val)) < 64 ==> ghost(lastsetuint) >> uint64(typeBits(reflTypeOf(val))) == 0
+//@   modifies *s, ghost(lastsetuint)
 
 //@ func decodeByteArray
 //@   property C08
 //@   requires s != nil
 //@   requires [table!init] reflByteArr(val)
 //@   ensures [consumed] result == nil ==> s.kind == 0 - 1
-//@   modifies *s, heap("uint8")
+//@   modifies *s, heap("uint8"), ghost(lastsetuint)
 
 // SplitString as used by the trie node decoder (C02): ghost splitlen is the length of the content the last
 // successful SplitString handed out (a history variable for contracts of its callers).
